@@ -19,7 +19,7 @@ TRANSPARENT = re.compile(
     r'|core::slice::<impl \[T\]>::len$|alloc::vec::Vec::<T, A>::len$|::len$'
     r'|alloc::sync::Arc::<T>::new$|alloc::boxed::Box::<T>::new$|alloc::rc::Rc::<T>::new$|ManuallyDrop::<T>::new$'
     r'|core::num::<impl [a-z0-9]+>::(from_le_bytes|from_be_bytes|from_ne_bytes)$'
-    r'|core::iter::traits::iterator::Iterator::(product|sum|copied|cloned|rev)$|::iter$|::into_iter$)')
+    r'|core::iter::traits::iterator::Iterator::(product|sum|copied|cloned|rev|enumerate|zip|skip|take|chain|filter|filter_map|map|map_while|take_while|skip_while|step_by|peekable|fuse|flatten|inspect|by_ref|collect)$|::iter$|::iter_mut$|::into_iter$|rten::graph::planner::CachedPlan::plan$)')
 
 FN_PREFIX = '{"k":"fn","p":"'
 REACH_PREFIX = '{"k":"reach","root":"'
